@@ -61,13 +61,28 @@ def run(tier, seed):
         small['obs'] = dict(rec['obs'], ofile=rec['obs']['ofile'][:12], efile=rec['obs']['efile'][:12], mail=rec['obs']['mail'][:12], ofile_n=len(rec['obs']['ofile']), efile_n=len(rec['obs']['efile']), mail_n=len(rec['obs']['mail']))
         d = {'row': '%s/%s/%d/%d' % (rec['rq']['so'], rec['rq']['se'], rec['rq']['mo'], rec['rq']['me']), 'sig': rec['job']['sig'], 'norun': rec['rq']['norun']}
         bad.append((vlib.save_replay(PID, f'run{g}.json', small), dict(small, **d)))
+    # the journal is shared: echsd hands every executor a descriptor of its own on one journal file, and runs that finish at the same
+    # moment append at the same time.  Rounds of 6..12 real echsx released together on one file; TraceJournal.tla wants whole entries,
+    # every UID once (Journal.tla is the model; its variant without the lock must violate)
+    import sys; sys.path.insert(0, f'{vlib.VERIF}/gen/extra'); import journal
+    ej = vlib.model_check('JournalE1.tla', 'JournalE1.cfg', wd, workers=4)
+    if not ej['ok']: raise vlib.Broken('JournalE1 failed:\n' + ej['out'][-1500:])
+    if vlib.model_check('JournalE1.tla', 'JournalE1_nolock.cfg', wd, workers=4)['ok']: raise vlib.Broken('Journal.tla does not discriminate: the variant without locking satisfies the contract')
+    jrecs = [journal.one_round(B, shim, wd, rnd.choice([6, 8, 12]), rnd, r) for r in range(60 if tier == 'thorough' else 16)]
+    jtrace = f'{wd}/journal.ndjson'
+    with open(jtrace, 'w') as f:
+        for r in jrecs: f.write(json.dumps(r) + '\n')
+    vj = vlib.validate('TraceJournal.tla', 'TraceJournal.cfg', [(jtrace, 0)], wd)
+    for fn, k, g in vj['bad']:
+        rec = json.loads(vlib.getline(fn, k))
+        bad.append((vlib.save_replay(PID, f'journal{g}.json', rec), {'row': 'journal', 'sig': 0, 'norun': False, 'journal_round': True}))
     unlisted, listed = vlib.classify(PID, bad)
     nbytes = sum(t[2] for r in recs for t in r['job']['out'] + r['job']['err'])
     cov = {'states': e1['states'], 'transitions': e1['transitions'], 'traces_validated_against_impl': len(recs),
            'samples': [{'rq': recs[0]['rq'], 'job': {'out': len(recs[0]['job']['out']), 'err': len(recs[0]['job']['err']), 'exit': recs[0]['job']['exit']}, 'obs': {k: recs[0]['obs'][k] for k in ('starts', 'nmail', 'jexit', 'jsig', 'tmpleft')}}],
            'evaluations': len(recs), 'distinct_nontrivial': len(recs),
            'rule': 'one case = one run of the real echsx process on a generated execution request: all 20 (OFILE, EFILE, MAIL-OUT, MAIL-ERR) combinations x job variants (token bursts in scripted interleavings, 0 bytes .. ~70 KiB per stream (thorough ~1 MiB), exit codes 0/1/3/42/255, SIGTERM/SIGKILL(/SIGXCPU)), plus --no-run requests; sendmail is redirected to a recorder, mkstemp names are logged',
-           'rows': len(rows), 'bytes_written_by_jobs': nbytes, 'mismatching_runs': v['nbad'],
+           'rows': len(rows), 'bytes_written_by_jobs': nbytes, 'mismatching_runs': v['nbad'], 'journal_rounds': len(jrecs), 'journal_executors': sum(r['nproc'] for r in jrecs), 'journal_rounds_bad': vj['nbad'],
            'e1': 'ExecutorE1: 24 request shapes x all interleavings of 2 tokens per stream and of the pumps: the 20-row descriptor plan routes per Executor!RoutingOk', 'exhaustive': False}
     return vlib.finish(PID, tier, seed, 'model_checking', cov, t0, unlisted, listed,
                        ['TLC/SANY, Json/IOUtils', 'LD_PRELOAD shim: posix_spawn(/usr/sbin/sendmail) -> recorder, mkstemp/alarm logged', 'runs use the invoking user\'s own uid/gid (no root needed)',
